@@ -54,7 +54,11 @@ CFG = {
             "updated, deregistered; proposals differing only in deposit or return address), exact duplicates (merged by the sets, rejected by "
             "CertificatesBuilder::add), near-duplicates differing in exactly one field, a reward account given two or three amounts (replacement in "
             "Withdrawals::insert and WithdrawalsBuilder::add), and totals of 2^64-2..2^64+2 where merging or keeping one item decides between a number "
-            "and an overflow; every case is "
+            "and an overflow; proposals over all 14 shapes of governance action (the seven kinds x prior action id x policy hash; parameter changes that "
+            "alter the deposit parameters themselves), led by every shape in turn and mixed in one body, return addresses on both networks with key and "
+            "script credentials; script certificates / withdrawals / guarded proposals enter the builders through add_with_native_script and "
+            "add_with_plutus_witness (inline script and reference input) alternately; pool parameters (margin, cost, relays, metadata, reward-account "
+            "network), anchors, DRep choices, MIR pots vary with the identities, so a figure that depends on any of them disagrees; every case is "
             "run through real Certificate/Withdrawals/VotingProposals values: helpers on a hand-made body, on its wire round trip and on the "
             "body built by TransactionBuilder, the three sub-builders, the transaction builder and the deprecated set_certs/set_withdrawals; "
             "the sizes of the six collections are compared with the model's merged sizes; "
